@@ -8,7 +8,7 @@ ids = [p['id'] for p in props]
 
 NOTE_COMMON = ('Trusted: Coq 8.16.1 kernel incl. vm_compute (no native_compute); no axioms (Print Assumptions re-run on every check); '
                'hand-written Gallina model tied to /repo by extraction (ExtrOcamlBasic only) + differential correspondence on every run; '
-               'generated tables and translated source (tools/gen: data files, python-ast call sites / set sites / raise sites, evaluator and check_args methods) re-derived from /repo on every run; the translators are trusted. See DESIGN.md section 4 and 10.')
+               'generated tables and translated source (tools/gen: data files, python-ast call sites / set sites / raise sites, and the source translators for the evaluators, check_args, tags, moparser, plural / header / date / language / charset checks) re-derived from /repo on every run; the translators are trusted. See DESIGN.md section 4 and 10.')
 
 CHECKS = {
     'C05': dict(
@@ -47,9 +47,9 @@ CHECKS = {
              'fails or leaves the range, with its true outcome; syntax-error iff the value is rejected; junk tags carry exactly the surrounding text; '
              'leftmost match and no match iff no declaration anywhere; nplurals verdict iff; no foreign exception for any input (unconditional); a total, in-range, onto declaration is silent; and, over the registry regenerated from data/languages '
              'on every run, each own declaration is silent/usual and total on the window (vm_compute). Tied to the code by in-process correspondence '
-             'of Checker.check_plurals and an independent truthfulness oracle.',
+             'of Checker.check_plurals and an independent truthfulness oracle. Source tie: parse_plural_forms (both variants, regex text included) and the whole of Checker.check_plurals are translated from the working tree on every run and proved equal to the model (C07_source_tie_*).',
         design_ref='DESIGN.md 5 / C07',
-        technique='Coq proof (composition of C05/C06 theorems, list induction, vm_compute over the regenerated registry) + correspondence + truthfulness oracle',
+        technique='Coq proof (composition of C05/C06 theorems, list induction, vm_compute over the regenerated registry) + correspondence + truthfulness oracle + source translation (python ast -> Gallina) proved equal to the model',
         note=NOTE_COMMON + ' The regex engine itself is modelled by the search function (tied by correspondence). D1 fixed by commit 6bd9347.'),
     'C02': dict(
         category='proof',
@@ -58,9 +58,9 @@ CHECKS = {
              'priority letter table and its monotonicity; coloured line = uncoloured line with the two SGR strings around the tag name; and, over tables '
              'regenerated from /repo on every run: no verbatim (safestr / safe_format template) call site is tainted, tool messages are printable ASCII, every '
              'tag name used is registered. The call-site theorem is relative to the translator\'s whitelist of tool-generated expressions, which is validated '
-             'dynamically (hostile catalogs through the real checker and CLI, with and without a pseudo-terminal).',
+             'dynamically (hostile catalogs through the real checker and CLI, with and without a pseudo-terminal). Source tie: lib/tags.py (_is_safe, _escape, safe_format, get_priority, get_colors, Tag.format, the OrderedEnum comparisons) and terminal.attr_fg/attr_reset are translated from the working tree on every run and proved equal to the model (C02_source_tie_*); the cleanliness theorems are restated about the translated code (C02_source_format_clean).',
         design_ref='DESIGN.md 5 / C02',
-        technique='Coq proof (list induction; vm_compute over regenerated call-site/tag/Unicode tables) + python-ast translator + correspondence + hostile-catalog oracle',
+        technique='Coq proof (list induction; vm_compute over regenerated call-site/tag/Unicode tables) + python-ast translator + correspondence + hostile-catalog oracle + source translation (python ast -> Gallina) proved equal to the model',
         note=NOTE_COMMON + ' The provenance whitelist in tools/gen/gen_callsites.py is trusted (and dynamically validated). D5 fixed by commit 2c86b46.'),
     'C14': dict(
         category='proof',
@@ -88,18 +88,18 @@ CHECKS = {
              'normalisation is total (Ok / boilerplate / invalid; the len-21 assert cannot fire), an Ok result is canonical and denotes an existing instant, keeps the date, hour, minute '
              'and the numeric offset written (or the unique offset of the abbreviation, or the hint), is a fixed point; the four-way verdict (boilerplate / invalid-date / date-from-future / '
              'ancient-date / nothing) is the reference verdict via a strictly monotone proleptic-Gregorian minutes-since-epoch; the regenerated zone table is well-formed (vm_compute). '
-             'Tied to the code by regex-level, strptime-level and in-process check_dates (pinned clock) correspondence plus a model-free oracle.',
+             'Tied to the code by regex-level, strptime-level and in-process check_dates (pinned clock) correspondence plus a model-free oracle. Source tie: gettext.fix_date_format, parse_date and Checker.check_dates (both loops) are translated from the working tree on every run and proved equal to the model (C18_source_tie_*).',
         design_ref='DESIGN.md 5 / C18; notes/C18.md',
-        technique='Coq proof (list induction, lia/div-mod, vm_compute over regenerated tables) + extracted-model correspondence + model-free oracle',
+        technique='Coq proof (list induction, lia/div-mod, vm_compute over regenerated tables) + extracted-model correspondence + model-free oracle + source translation (python ast -> Gallina) proved equal to the model',
         note=NOTE_COMMON + ' Hints other than None/[+-]hhmm are outside the theorem (the tool passes only None or -0000); regex/strptime fidelity by correspondence only.'),
     'C08': dict(
         category='proof',
         text='Coq theorems about the byte-level model of lib/moparser.py against a relation written from gmo.h: for every well-formed catalog and EVERY layout '
              '(either byte order, tables and strings anywhere, overlapping or padded, hash/sysdep areas unconstrained, minor revision 0/1) parsing returns exactly the '
              'catalog (msgctxt, msgid, msgid_plural, msgstr or indexed forms) in file order, the charset named by the header entry, and the possibly-hidden flag. '
-             'Decoding with the named codec is an oracle applied by the harness. Tied by a layout-parameterised MO serialiser and msgfmt-built files.',
+             'Decoding with the named codec is an oracle applied by the harness. Tied by a layout-parameterised MO serialiser and msgfmt-built files. Source tie: Parser._read_ints, _parse and _parse_entry of lib/moparser.py are translated from the working tree on every run and proved equal to the model (C08_source_tie_*).',
         design_ref='DESIGN.md 5 / C08; notes/C08.md',
-        technique='Coq proof (induction on the entry index over little/big-endian word lemmas) + extracted-model correspondence + serialise/parse oracle',
+        technique='Coq proof (induction on the entry index over little/big-endian word lemmas) + extracted-model correspondence + serialise/parse oracle + source translation (python ast -> Gallina) proved equal to the model',
         note=NOTE_COMMON + ' Text-level equality after decoding is checked by the harness only. D18 (msgctxt/msgid exchanged) fixed by commit e2286ba.'),
     'C09': dict(
         category='proof',
@@ -108,9 +108,9 @@ CHECKS = {
              'declared tables, inside the file, followed by NUL); every table word and string read lies inside the file; each malformation named by the property '
              '(bad magic, major > 1, truncated header, table or string past EOF, missing terminator, bad NUL structure, decreasing keys) is rejected with the MO syntax '
              'error; rejected files produce invalid-mo-file only. Tied by fault enumeration (every truncation point, every header/table word x boundary values, '
-             'terminator flips, random bytes) against the model and an independent reference reader. The glue of Checker.check is modelled with the loader as an oracle: a syntax error on the last attempt gives exactly invalid-mo-file (+ broken-encoding iff the first attempt failed to decode) and returns before the sub-checks (C09_glue_*).',
+             'terminator flips, random bytes) against the model and an independent reference reader. The glue of Checker.check is modelled with the loader as an oracle: a syntax error on the last attempt gives exactly invalid-mo-file (+ broken-encoding iff the first attempt failed to decode) and returns before the sub-checks (C09_glue_*). Source tie: the translated lib/moparser.py equals the model and ends normally, with SyntaxError or with UnicodeDecodeError on every byte string (C09_source_tie_*).',
         design_ref='DESIGN.md 5 / C09; notes/C09.md',
-        technique='Coq proof (totality + soundness w.r.t. the gmo.h relation) + fault-enumeration correspondence + independent reference reader',
+        technique='Coq proof (totality + soundness w.r.t. the gmo.h relation) + fault-enumeration correspondence + independent reference reader + source translation (python ast -> Gallina) proved equal to the model',
         note=NOTE_COMMON + ' Known finding D11 (charset=idna: UnicodeError escapes).'),
     'C11': dict(
         category='proof',
@@ -128,9 +128,9 @@ CHECKS = {
              'oracles: no-<field> iff count 0 (with the POT/MO exemptions), duplicate iff count > 1, invalid-mime-version / content-transfer-encoding / content-type iff the value '
              'deviates from the stated form, unknown-header-field iff neither registered nor X-prefixed, stray-header-line iff no field name and no conflict marker, header-entry '
              'position/flag/duplicate rules, reserved and dot-less domains, the address decision ladder, a conventional header is silent, and no crash. parseaddr, urlparse, '
-             'get_close_matches and the charset predicates are oracle arguments.',
+             'get_close_matches and the charset predicates are oracle arguments. Source tie: gettext.parse_header and Checker.check_headers / check_mime (form checks) / check_project / check_translator / check_comments are translated from the working tree on every run and proved equal to the model (C15_source_tie_*).',
         design_ref='DESIGN.md 5 / C15; notes/C15.md',
-        technique='Coq proof (characterisations over the field multiset) + in-process recorded-tag correspondence on generated headers + rule oracle',
+        technique='Coq proof (characterisations over the field multiset) + in-process recorded-tag correspondence on generated headers + rule oracle + source translation (python ast -> Gallina) proved equal to the model',
         note=NOTE_COMMON + ' Whole-result iffs for a few address/boilerplate/flag tags are covered by correspondence only (see notes/C15.md). D13 fixed by commit 1f24f5a.'),
     'C16': dict(
         category='proof',
@@ -146,18 +146,18 @@ CHECKS = {
         text='Coq theorems: the scanner model of the locale regexp accepts exactly ll[_CC][.encoding][@modifier] and printing the parse gives the input back (up to the case of the '
              'encoding); over the ISO tables regenerated from data/iso-codes: code normalisation maps a 3-letter code with a 2-letter equivalent to it, rejects unknown codes, changes '
              'nothing else, is idempotent; language-disparity, invalid-language (with the offered correction) and unable-to-determine-language characterisations of the check_language '
-             'decision model (-l, LC_MESSAGES directory, base name, Language, X-Poedit-Language).',
+             'decision model (-l, LC_MESSAGES directory, base name, Language, X-Poedit-Language). Source tie: the Language methods (fix_codes, remove_*, __str__, comparison), parse_language, get_language_for_name and every statement of Checker.check_language are translated from the working tree on every run and proved equal to the model (C19_source_tie_*).',
         design_ref='DESIGN.md 5 / C19; notes/C19.md',
-        technique='Coq proof (induction; vm_compute + forallb_forall over regenerated ISO tables) + small-scope exhaustive correspondence + in-process check_language product + rule oracle',
+        technique='Coq proof (induction; vm_compute + forallb_forall over regenerated ISO tables) + small-scope exhaustive correspondence + in-process check_language product + rule oracle + source translation (python ast -> Gallina) proved equal to the model',
         note=NOTE_COMMON + ' _munch_language_name folding is an oracle; normpath/basename modelled and tied. D8, D17, D16 fixed (f3d0bed, 3540785, b507bc1).'),
     'C20': dict(
         category='proof',
         text='Coq theorems: for each charmap of data/charmaps (regenerated every run) decode/encode round trip for byte strings of every length, totality with valid error positions, '
              'ASCII compatibility; proposals are portable and resolve to the same codec; classification laws over the finite generated name table (refuted for KOI8-T = D10, proved for '
              'all other names); the iconv grow-and-retry loops terminate with at most two doublings and report valid positions under the iconv(3) contract; unrepresentable-characters iff '
-             'some non-optional listed character is not encodable. Runtime (EUC-TW/KOI8-T via libc/CPython vs /usr/bin/iconv) by correspondence.',
+             'some non-optional listed character is not encodable. Runtime (EUC-TW/KOI8-T via libc/CPython vs /usr/bin/iconv) by correspondence. Source tie: the grow-and-retry loops of lib/iconv.py (the doubling, the call order, the error positions), the classification functions of lib/encodings.py, the codec search, the charset branch of check_mime and the tail of get_unrepresentable_characters are translated from the working tree on every run and proved equal to the model (C20_source_tie_*), and the termination theorem is restated about the translated decode.',
         design_ref='DESIGN.md 5 / C20; notes/C20.md',
-        technique='Coq proof (list induction, vm_compute over regenerated tables, fuel induction for the loops) + correspondence against real codecs and /usr/bin/iconv',
+        technique='Coq proof (list induction, vm_compute over regenerated tables, fuel induction for the loops) + correspondence against real codecs and /usr/bin/iconv + source translation (python ast -> Gallina) proved equal to the model',
         note=NOTE_COMMON + ' libc iconv, codecs.lookup, str.lower are oracles. Known findings D10, D19, D11.'),
     'C17': dict(
         category='other',
@@ -210,7 +210,7 @@ CHECKS = {
              'header, message, date, language and charset-proposal models), re-exported in Props/C01.v so that C01 stops checking when any of them does. Explored on the real CLI, not proved: '
              'exit status 0, empty stderr, line grammar and a time cap for generated files of every kind (hostile catalogs, every component\'s malformed stream in the slot that reaches it, '
              'escape spellings, duplicate header fields, every odd codec name, byte noise, mutated files, MO truncations and word corruptions) under -l / --file-type / -j, and at most quadratic '
-             'growth on 28 pumped families. The orchestration Checker.check() is modelled with the loaders and os.stat as oracles and proved: which exceptions can leave it (iff), dispatch on extension / --file-type, constructor calls, ctx flags, the order of the nine sub-checks, broken-encoding once and last, the arguments of syntax-error-in-po-file and that their safestr parts are [a-z0-9 :] only (27 theorems C01_glue_*); tied by scripted-oracle correspondence through the real method with stubbed loaders.',
+             'growth on 28 pumped families. The orchestration Checker.check() is modelled with the loaders and os.stat as oracles and proved: which exceptions can leave it (iff), dispatch on extension / --file-type, constructor calls, ctx flags, the order of the nine sub-checks, broken-encoding once and last, the arguments of syntax-error-in-po-file and that their safestr parts are [a-z0-9 :] only (27 theorems C01_glue_*); tied by scripted-oracle correspondence through the real method with stubbed loaders. The plural check is source-tied as well: the translated check_plurals returns or lets only a registry syntax error escape (C01_source_tie_check_plurals_total).',
         design_ref='DESIGN.md 5 / C01',
         technique='Coq proof (aggregate of component totality theorems) + CLI fuzz with timing',
         note=NOTE_COMMON + ' Recursion limit, regex cost, memory and the exit status are runtime behaviour no model here exhibits. Known findings D11, D12, D14.'),
